@@ -1,11 +1,12 @@
 import Oracle.Proto
 import Oracle.PubSub
 import Oracle.PubSubJudge
+import Oracle.PubSubFanout
 /-! Oracle suites of property C10 (linked into `oracle-c10` through `Oracle/MainC10.lean`). -/
 namespace Oracle.C10
 
 def suites : List (String × Suite) :=
   [("pubsub", Oracle.PubSub.model), ("pubsub-spec", Oracle.PubSub.spec), ("pubsub-remote", Oracle.PubSub.remote),
-   ("pubsub-conc-judge", Oracle.PubSubJudge.judge)]
+   ("pubsub-conc-judge", Oracle.PubSubJudge.judge), ("pubsub-fanout-judge", Oracle.PubSubFanout.judge)]
 
 end Oracle.C10
